@@ -81,6 +81,12 @@ CHECKS = {
                      "mutated in place with symbolic parameters and every control-point coordinate of the others must stay the identical polynomial (any shared Point2D/segment/"
                      "curve shows as a dependence on the mutation parameters); operands denote the same region after the call (z3, query point free).",
                 technique="symbolic execution of the real code (SYMX) with symbolic in-place mutation; structural independence + z3 region obligations per path cell"),
+    "C10": dict(level="model_checking", design="4/C10",
+                text="Histories of length 3 over in-place transformations (symbolic parameters), queries and operators under SYMX: after every prefix the live object's answers "
+                     "(area, moment, signed lengths, orientation, box, point containment, shape containment, kind) are identical on the whole path cell to those of a deep copy "
+                     "taken then; a second question after a first on the same (possibly split-in-place) operands gives the same kind, area and region (z3, free query point) as on "
+                     "fresh operands.",
+                technique="symbolic execution of operation histories on the real code (SYMX) + z3 per path cell; live-vs-deepcopy identities"),
 }
 NA = {}
 
